@@ -85,42 +85,27 @@ def real_cases(ctx, rng, nkeys, nflip):
         pk = pecc.PrivateKey(d)
         m = msgs[i] if i < len(msgs) else bytes(rng.randrange(256) for _ in range(32))
         aux = b"\x00" * 32 if i % 3 == 0 else bytes(rng.randrange(256) for _ in range(32))
-        k0s = []
-        orig = pecc.PrivateKey.bip340_k
-
-        def wrapped(self, msg, a=None):
-            kk = orig(self, msg, a)
-            k0s.append(kk)
-            return kk
-        pecc.PrivateKey.bip340_k = wrapped
-        try:
-            res = outcome(pk.sign_schnorr, m, aux)
-        finally:
-            pecc.PrivateKey.bip340_k = orig
+        # (no hook on the library's nonce helper: the specified nonce is recomputed below from the tagged hashes)
+        res = outcome(pk.sign_schnorr, m, aux)
         if i % 2 == 0:
             # history independence: an earlier signature of the same message with another aux on the same object
             outcome(pk.sign_schnorr, m, bytes(32) if aux != bytes(32) else b"\x01" * 32)
-            try:
-                pecc.PrivateKey.bip340_k = wrapped
-                k0s.clear()
-                res = outcome(pk.sign_schnorr, m, aux)
-            finally:
-                pecc.PrivateKey.bip340_k = orig
+            res = outcome(pk.sign_schnorr, m, aux)
         Pt = pk.point
         ctx.nontriv(("real-ssign", Pt.parity, d in secrets))
-        if res[0] != "ok" or not k0s:
+        if res[0] != "ok":
             cases.append({"id": "s%d" % i, "kind": "ssign", "res": "raise", "d": le(d), "P": [le(Pt.x.num), le(Pt.y.num)], "R": [[], []], "m": B(m), "aux": B(aux), "k0": [],
                           "hr": [], "dk0": dec(0), "de": dec(0), "ds": dec(0), "sig": [], "verifies": False})
             continue
         sig = res[1]
         sigb = sig.serialize()
-        k0 = k0s[0]
-        R0 = k0 * pecc.G                    # nonce point before normalisation
         dd = N256 - d if Pt.parity else d
         haux = hash_prim("tag:BIP0340/aux", aux)
         t = bytes(x ^ y for x, y in zip(dd.to_bytes(32, "big"), haux))
         nonce_in = t + Pt.x.num.to_bytes(32, "big") + m
         rand = int.from_bytes(hash_prim("tag:BIP0340/nonce", nonce_in), "big")
+        k0 = rand % N256                    # BIP340: k' = int(rand) mod n (the specification's nonce, checked by TLC against the rows)
+        R0 = k0 * pecc.G                    # nonce point before normalisation
         keven = N256 - k0 if R0.parity else k0
         chal_in = R0.x.num.to_bytes(32, "big") + Pt.x.num.to_bytes(32, "big") + m
         e = int.from_bytes(hash_prim("tag:BIP0340/challenge", chal_in), "big")
